@@ -1430,6 +1430,7 @@ func runCase(o *hx.Out, f *hx.Flags, k int, t *tb) {
 			o.Count("sroot")
 		}
 		o.Line("local", fmt.Sprintf("%d %s", sm.CurrentLocalHeight(), hex.EncodeToString(func() []byte { u := sm.CurrentLocalStateRoot(); return u[:] }())))
+		o.Line("vheight", fmt.Sprint(sm.CurrentValidatedHeight()))
 		if rec := recs[top]; rec != nil && (sm.CurrentLocalHeight() != top || sm.CurrentLocalStateRoot() != rec.root) {
 			o.Fail(tag+"current-local", k, "the state module's current local root is (%d, %s), the chain is at %d with root %s", sm.CurrentLocalHeight(), sm.CurrentLocalStateRoot().StringLE(), top, rec.root.StringLE())
 		}
@@ -1516,8 +1517,11 @@ func runCase(o *hx.Out, f *hx.Flags, k int, t *tb) {
 		if stMode == 1 {
 			tag = "reset-rub-"
 		}
-		if err != nil {
-			o.Fail(tag+"error", k, "Reset(%d) at height %d: %v", target, top, err)
+		// with RemoveUntraceableBlocks a reset below the current height is refused before anything is
+		// written (blockchain.go:976-978): the node must be exactly as it was
+		refused := err != nil && len(resetBatches) == 0 && stMode == 1 && target < top
+		if err != nil && !refused {
+			o.Fail(tag+"error", k, "Reset(%d) at height %d wrote %d batches and failed: %v", target, top, len(resetBatches), err)
 			return
 		}
 		reopened := func() (ok bool) {
@@ -1544,10 +1548,17 @@ func runCase(o *hx.Out, f *hx.Flags, k int, t *tb) {
 			return
 		}
 		e = neotest.NewExecutor(t, bc, acc, acc)
-		o.Line(fmt.Sprintf("reset %d", target), "ok")
-		o.Add("reset:removed-blocks", int(top-target))
-		for h := target + 1; h <= top; h++ {
-			delete(recs, h)
+		if refused {
+			o.Count("reset:refused-rub")
+			o.Line(fmt.Sprintf("resetrefused %d", target), "ok")
+			tag = "reset-refused-"
+			target = top // nothing was removed: every root and the whole storage must still be there
+		} else {
+			o.Line(fmt.Sprintf("reset %d", target), "ok")
+			o.Add("reset:removed-blocks", int(top-target))
+			for h := target + 1; h <= top; h++ {
+				delete(recs, h)
+			}
 		}
 		prev = recs[target].d
 		if !checkVisible(tag, target) {
@@ -1592,7 +1603,7 @@ func runCase(o *hx.Out, f *hx.Flags, k int, t *tb) {
 				bc, e = saveBc, saveE
 			}
 		}
-		stateRoots("reset-")
+		stateRoots(tag)
 		for i := r.Range(1, 4); i > 0; i-- {
 			addRandomBlock()
 		}
